@@ -8,9 +8,11 @@ Universe (the one the C12 probe `harness/c12/probe_test.go` drives on the real c
 * one builder; two packages `p0` (the caller's own) and `p1`;
 * targets: functions `fA fB` (looked up with `Builder.Func`), methods `(*T).M1 M2` (`Builder.Struct(..).Method`),
   method `M` of one interface variable (`Builder.Interface(..).Method`), unexported functions `X Y` of both packages
-  (`Builder.ExportFunc`, package taken from `Builder.pkgName`), plus the non-existent name `Z` (error lane);
+  (`Builder.ExportFunc`, package taken from `Builder.pkgName`), plus the non-existent name `Z` (error lane), method `um`
+  of the unexported struct `*U` of both packages (`Builder.ExportStruct("*U").Method("um")`, package from `pkgName`);
 * the builder's `map[interface{}]Mocker` is specialised to the keys that can occur: function name (`fnC`),
-  `pkgName+"_"+name` (`xfC`), the type string of `*T` (`stC`, value = `CachedMethodMocker.mCache`), the type string of
+  `exportKey{"func", pkgName, name}` (`xfC`), `exportKey{"struct", pkgName, "*U"}` (`xsC`, value =
+  `CachedUnexportedMethodMocker.mockers["um"]`), the `reflect.Type` of `*T` (`stC`, value = `CachedMethodMocker.mCache`), the type string of
   the interface pointer (`ifC`, value = `CachedInterfaceMocker{ctx, mockers}`), `"var_<addr>"` (`varC`).
 -/
 namespace C12M
@@ -29,7 +31,7 @@ inductive XName | x | y | z
   deriving DecidableEq, Repr
 
 inductive Tgt
-  | fn (i : Bool) | st (i : Bool) | im | xf (p : Pkg) (n : XName)
+  | fn (i : Bool) | st (i : Bool) | im | xf (p : Pkg) (n : XName) | xs (p : Pkg)
   deriving DecidableEq, Repr
 
 /-! ## When (when.go, matcher.go) reduced to int arguments / int results -/
@@ -165,6 +167,7 @@ structure Builder where
   fnC : Bool → Option Nat := fun _ => none
   xfC : Pkg → XName → Option Nat := fun _ _ => none
   stC : Option (Bool → Option Nat) := none
+  xsC : Pkg → Option (Option Nat) := fun _ => none
   ifC : Option (Nat × Option Nat) := none
   varC : Option Bool := none
 
@@ -188,7 +191,7 @@ structure State where
 
 def init : State := {}
 
-inductive Handle | fn (i : Bool) | st (i : Bool) | im | xf (n : XName)
+inductive Handle | fn (i : Bool) | st (i : Bool) | im | xf (n : XName) | xs
   deriving DecidableEq, Repr
 
 inductive Instr | look | apply (k : Nat) | stub (s : Stub) | cancel
@@ -203,7 +206,7 @@ inductive Err | methodNotFound | funcNameError | symbolNotFound
 
 /-- the target a handle denotes when the builder's package name is `p` -/
 def tgtOf (p : Pkg) : Handle → Tgt
-  | .fn i => .fn i | .st i => .st i | .im => .im | .xf n => .xf p n
+  | .fn i => .fn i | .st i => .st i | .im => .im | .xf n => .xf p n | .xs => .xs p
 
 /-- raw content of the cache slot that belongs to target `t` -/
 def slot (s : State) : Tgt → Option Nat
@@ -211,6 +214,7 @@ def slot (s : State) : Tgt → Option Nat
   | .xf p n => s.b.xfC p n
   | .st i => match s.b.stC with | some c => c i | none => none
   | .im => match s.b.ifC with | some (_, c) => c | none => none
+  | .xs p => match s.b.xsC p with | some c => c | none => none
 
 /-- cache hit test `ok && !mocker.Canceled()` -/
 def liveOf (s : State) (c : Option Nat) : Option Nat :=
@@ -237,6 +241,17 @@ def stInner (s : State) : Bool → Option Nat :=
     walks the caches), so the key is a hit whenever it exists; else NewCachedMethodMocker (empty mCache) is cached. -/
 def structLookup (s : State) : State :=
   reset2CurPkg { s with b := { s.b with stC := some (stInner s) } }
+
+/-- `CachedUnexportedMethodMocker.mockers["um"]` of the cached mocker for `exportKey{"struct", p, "*U"}` (empty when none yet) -/
+def xsInner (s : State) (p : Pkg) : Option Nat :=
+  match s.b.xsC p with | some c => c | none => none
+
+/-- builder.go `ExportStruct`: key `exportKey{"struct", b.pkgName, name}`; the embedded UnexportedMethodMocker of a
+    CachedUnexportedMethodMocker is never cancelled (cache.go:107 Cancel only walks `mockers`), so the key is a hit whenever
+    it exists; else NewCachedUnexportedMethodMocker(NewUnexportedMethodMocker(b.pkgName, ..)) is cached.  Both branches
+    call reset2CurPkg. -/
+def exportStructLookup (s : State) : State :=
+  reset2CurPkg { s with b := { s.b with xsC := upd s.b.xsC s.b.pkg (some (xsInner s s.b.pkg)) } }
 
 /-- builder.go:62 `Interface`: hit unless `Canceled()`, which is `ctx.Canceled()` (cache.go:158); else iface.NewContext()
     and NewCachedInterfaceMocker (empty mockers).  Returns the state, the context and the cached mocker's `mockers["M"]`. -/
@@ -271,6 +286,14 @@ def lookup (s : State) : Handle → State × Nat
     | none =>
       let (s1, mid) := alloc s0 { tgt := .st i }               -- NewMethodMocker + Method(name)
       ({ s1 with b := { s1.b with stC := some (upd (stInner s) i (some mid)) } }, mid)
+  | .xs =>
+    let p := s.b.pkg
+    let s0 := exportStructLookup s
+    match liveOf s0 (xsInner s p) with                         -- cache.go:97 Method
+    | some mid => (s0, mid)
+    | none =>                                                  -- NewUnexportedMethodMocker(m.pkgName, structName) + Method(name):
+      let (s1, mid) := alloc s0 { tgt := .xs p }               --   m.pkgName is the package of the key
+      ({ s1 with b := { s1.b with xsC := upd s1.b.xsC p (some (some mid)) } }, mid)
   | .im =>
     let (s0, c, inner) := ifaceLookup s
     match liveOf s0 inner with                                 -- cache.go:140 Method
@@ -292,7 +315,8 @@ def applyCb (v : Variant) (s : State) (mid : Nat) (k : Nat) : State × Option Er
   let m := s.mks mid
   if isPhantom m.tgt then (s, some .funcNameError)             -- proxy.FuncName: symbol not found → panic, nothing changed
   else
-    let m' := { m with guard := true, when := if v.applyClearsWhen then none else m.when }
+    let m' := { m with guard := true, canceled := false,           -- applyBy*: `m.canceled = false` (50de3fa)
+                       when := if v.applyClearsWhen then none else m.when }
     (setInst (setM s mid m') m.tgt (.cb k), none)
 
 /-- `Return / When / When..Return / Returns` through the mocker: mocker.go:253–327, :517–572, iface.go:108–172 -/
@@ -303,7 +327,7 @@ def stubI (s : State) (mid : Nat) (st : Stub) : State × Option Err :=
     match m.when with
     | some w => (setM s mid { m with when := some (w.step st) }, none)          -- `if m.when != nil { return m.when.Return(..) }`
     | none =>                                                                    -- CreateWhen; whens; doApply(m.imp)
-      (setInst (setM s mid { m with when := some (When.fresh st), guard := true }) m.tgt (.via mid), none)
+      (setInst (setM s mid { m with when := some (When.fresh st), guard := true, canceled := false }) m.tgt (.via mid), none)
 
 /-- mocker.go:156 `baseMocker.Cancel`; guard.go:38 (interface: `ctx.Cancel()` restores the variable and cancels the
     context), guard.go:57 (patch: `UnpatchWithLock` writes the original bytes back) -/
@@ -331,7 +355,7 @@ def allNames : List XName := [.x, .y, .z]
 def cachedMids (s : State) : List Nat :=
   ([s.b.fnC false, s.b.fnC true]
     ++ (allPkgs.flatMap fun p => allNames.map fun n => s.b.xfC p n)
-    ++ [slot s (.st false), slot s (.st true), slot s .im]).filterMap id
+    ++ [slot s (.st false), slot s (.st true), slot s .im, slot s (.xs .p0), slot s (.xs .p1)]).filterMap id
 
 /-- builder.go:193 `Reset`: Cancel on every cached mocker (cancelled ones included) -/
 def resetB (s : State) : State :=
@@ -379,7 +403,7 @@ def call (s : State) (t : Tgt) (a : Nat) : State × Res :=
       | some w => let (w', r) := w.invoke a; (setM s mid { m with when := some w' }, r)
 
 def obsTgts : List Tgt :=
-  [.fn false, .fn true, .st false, .st true, .im, .xf .p0 .x, .xf .p0 .y, .xf .p1 .x, .xf .p1 .y]
+  [.fn false, .fn true, .st false, .st true, .im, .xf .p0 .x, .xf .p0 .y, .xf .p1 .x, .xf .p1 .y, .xs .p0, .xs .p1]
 
 def obsCalls : List (Tgt × Nat) := obsTgts.flatMap fun t => [(t, 1), (t, 2)]
 
